@@ -174,6 +174,8 @@ type Rel struct {
 	Op    token.Token
 	X, Y  ssa.Value
 	Truth bool
+	// Sub: parameters of the predicate helpers this relation was expanded from -> caller values
+	Sub map[ssa.Value]ssa.Value
 }
 
 func negate(op token.Token) token.Token {
